@@ -26,4 +26,3 @@ def apply(F):
     F.contract(T, r'fn dh\b', ret='r', clauses=DH + '\n')
     F.contract(T, r'fn derive_keypair<Kdf: KdfTrait>', ret='r', clauses='\n        requires kdf_ok::<Kdf>(),' + DERIVE + '\n')
     F.wrap([], T[0])
-    F.wrap_simple_consts()
